@@ -7,4 +7,5 @@ CONSTANTS
   MaxLen = 5
   CtxMax = 2
   WithPlans = FALSE
+  WithCrlf = TRUE
 INVARIANT Emitted
